@@ -87,8 +87,8 @@ def mutations(rng, doc, per_path: int = 3, max_total: int = 400):
         if isinstance(old, dict) and p == ("signatures",):
             # what the unsigned signature map is indexed by is nobody's business as long as every *value* is a well-formed entry: an entry repeated under another
             # spelling of its index (upper case, blanks, 0x), under junk, under the empty string — the document stays well formed
-            some = next(iter(old.values()), {"signature": "ab" * 64})
-            k0 = next(iter(old), gen.key(9).hex)
+            k0 = next((k_ for k_ in old if isinstance(k_, str) and len(k_) == 64), gen.key(9).hex)
+            some = old.get(k0, {"signature": "ab" * 64})
             for alt in [k0.upper(), " " + k0, k0 + " ", "0x" + k0, k0[:32] + " " + k0[32:], "", "junk", k0[:-1], "\u00e9"]:
                 if alt not in old:
                     out.append((gen.set_path(doc, p, {**old, k0: some, alt: some}), "signature-index-respelled:" + name))
@@ -96,13 +96,15 @@ def mutations(rng, doc, per_path: int = 3, max_total: int = 400):
             out.append((gen.set_path(doc, p, {**old, "extra_field": 1}), "extra-field:" + name))
             for k in [x for x in novel if isinstance(x, str)][:3]:
                 out.append((gen.set_path(doc, p, {**old, k: rng.choice([1, True, "x", {}, []])}), "extra-mined-field:" + name))
-            out.append((gen.set_path(doc, p, list(old.items()) and [list(kv) for kv in old.items()]), "dict-as-pairs:" + name))
-            out.append((gen.set_path(doc, p, list(old.keys())), "dict-as-keylist:" + name))
+            # (an index that is not a string — in-memory signature maps can have one — is written as the string the model is shown for it)
+            sk = lambda k_: k_ if isinstance(k_, str) else "\x00index:" + type(k_).__name__ + ":" + repr(k_)
+            out.append((gen.set_path(doc, p, list(old.items()) and [[sk(k_), v_] for k_, v_ in old.items()]), "dict-as-pairs:" + name))
+            out.append((gen.set_path(doc, p, [sk(k_) for k_ in old.keys()]), "dict-as-keylist:" + name))
         if isinstance(old, int) and not isinstance(old, bool):
             for t in [0, -1, old + 0.0 if abs(old) < 2**53 else 1.0, str(old), float("inf"), [old], old + 0.5 if abs(old) < 2**53 else 0.5]:
                 out.append((gen.set_path(doc, p, t), "number:" + name + ":" + type(t).__name__))
         if len(out) > max_total:
             break
     out.append(({**doc, "extra": 1}, "extra-field:<top>"))
-    out.append(([list(kv) for kv in doc.items()], "top-as-pairs"))
+    out.append(([[k_, v_] for k_, v_ in doc.items() if isinstance(k_, str)], "top-as-pairs"))
     return out
